@@ -75,6 +75,52 @@ target("breezy/bzr/workingtree.py::InventoryWorkingTree.remove", block={"stmt": 
                            r"osutils\.isdir\(abs_path\) and len\(os\.listdir": "which branch handles a path: both branches rename without force and delete only what is not to be backed up / with force"},
        note="block: the deletion step for one path")
 
+# ---- "written by a previous merge": the merge-hash map that _alter_files trusts. It is filled by Merge3Merger.write_modified from
+#      _TransformResults.modified_paths, which _apply_insertions builds. The chain under contract: a path enters modified_paths only if the
+#      transform wrote NEW CONTENT there (a file that was merely renamed still carries the user's text), and write_modified records
+#      hashes for those paths only.
+assumed("self.path_changed", pure=True, result=BOOL, raises={"Exception": None})
+for _path, _cls in (("breezy/bzr/transform.py", "InventoryTreeTransform"), ("breezy/git/transform.py", "GitTreeTransform")):
+    cls(_cls, fields={"_new_contents": MapS(STR, STR)})
+    target("%s::%s._apply_insertions" % (_path, _cls),
+           block={"stmt": "If", "contains": r"^\s*if trans_id in self\._new_contents or self\.path_changed\(trans_id\):"},
+           params=dict(trans_id=STR, full_path=STR, modified_paths=Seq(STR), path=STR),
+           modifies=["modified_paths"],
+           ensures={"only_paths_with_new_content_are_reported_as_written": lambda c: If(
+                        In(c.old.trans_id, c.self._new_contents), c.modified_paths == c.old.modified_paths + lift([c.old.full_path], Seq(STR)),
+                        c.modified_paths == c.old.modified_paths)},
+           raises={"Exception": True},
+           canary=lambda c: c.modified_paths == c.old.modified_paths,
+           note="block: which paths one entry of the insertion phase reports as modified (they become merge hashes)")
+
+Rel = ufunc("Rel", STR, STR)
+Versioned = ufunc("Versioned", STR, BOOL)
+Sha = ufunc("Sha", STR, Opt(BYTES))
+assumed("self.working_tree.supports_merge_modified", pure=True, no_raise=True, result=BOOL)
+assumed("self.working_tree.relpath", pure=True, returns=lambda c: Rel(c.args[0]), raises={"Exception": None})
+assumed("self.working_tree.is_versioned", pure=True, returns=lambda c: Versioned(c.args[0]), raises={"Exception": None})
+assumed("self.working_tree.get_file_sha1", pure=True, returns=lambda c: Sha(c.args[0]), raises={"Exception": None})
+MH = MapS(STR, BYTES)
+K0 = ufunc("K0", STR)                         # an arbitrary key (skolem constant: what is proved for it holds for every key)
+
+
+def recorded_only_for_written(hashes, paths, n):
+    """every recorded hash belongs to one of the first n paths the transform reported as written, and is that file's current hash"""
+    k = K0()
+    return Implies(In(k, hashes), exists([INT], lambda j: And(0 <= j, j < n, Rel(paths[j]) == k, Not(Sha(k).is_none), hashes[k] == Sha(k).val)))
+
+
+assumed("self.working_tree.set_merge_modified", result=NONE, raises={"Exception": "unchanged"},
+        # what is recorded: hashes of paths the transform reported as written, nothing else
+        requires=lambda c: recorded_only_for_written(c.args[0], c.results.modified_paths, Len(c.results.modified_paths)))
+RES = cls("_TransformResults", fields={"modified_paths": Seq(STR)})
+target("breezy/merge.py::Merge3Merger.write_modified", params=dict(results=RES), locals=dict(modified_hashes=MH),
+       loops={1: loop(r"for path in results\.modified_paths", index="i", inv=lambda c: recorded_only_for_written(c.modified_hashes, c.results.modified_paths, c.i))},
+       ensures={"recorded_at_most_once": lambda c: lift(c.calls("self.working_tree.set_merge_modified") <= 1)},
+       raises={"Exception": True},
+       canary=lambda c: lift(c.calls("self.working_tree.set_merge_modified") == 0),
+       note="merge hashes are recorded for paths in results.modified_paths only (precondition of set_merge_modified)")
+
 undecided("merge, update, switch and pull into a tree (tree-level three-way merge over external code)")
 undecided("that files_to_backup is complete (built from iter_changes: external tree comparison); unknown files are never iterated for deletion "
           "because only versioned paths and their nested content enter the list (not under contract)")
